@@ -96,6 +96,11 @@ public:
   std::vector<uint32_t> mem;
   std::vector<uint8_t> written;            // per word: loaded or written
   bool trackWritten = false;
+  // Taint mode (needs trackWritten): a word that was neither loaded nor written holds an undefined
+  // value; loading it is harmless, *using* it is not (as an address, a branch condition, a jump
+  // target, a system-call number or argument).  defA/defB say whether areg/breg are defined.
+  bool taint = false;
+  bool defA = true, defB = true;
   bool running = true;
   uint32_t exitValue = 0;
   uint64_t steps = 0;
@@ -103,7 +108,7 @@ public:
   Step last;
 
   explicit Machine(uint32_t words = W_HEXSIM) : W(words), mem(words, 0) {}
-  void reset() { pc = areg = breg = oreg = 0; running = true; exitValue = 0; steps = 0; last = Step(); }
+  void reset() { pc = areg = breg = oreg = 0; running = true; exitValue = 0; steps = 0; last = Step(); defA = defB = true; }
   void clearMemory() { std::fill(mem.begin(), mem.end(), 0u); if (trackWritten) std::fill(written.begin(), written.end(), 0); }
   void enableWrittenTracking() { trackWritten = true; written.assign(W, 0); }
   // Load an image (little-endian words) at address 0.
@@ -123,11 +128,19 @@ public:
     uint8_t inst = byteAt(pc);
     uint32_t npc = pc + 1;
     uint32_t o = oreg | (inst & 15);
+    const bool tm = taint && trackWritten;
     auto rd = [&](uint32_t a) -> Domain {
       if (a >= W) return D_DATA_OOB;
-      if (needWritten && trackWritten && !written[a]) return D_READ_UNWRITTEN;
+      if (needWritten && !tm && trackWritten && !written[a]) return D_READ_UNWRITTEN;
       return D_OK;
     };
+    // In taint mode: the value in word a is about to be *used*.
+    auto used = [&](uint32_t a) -> Domain {
+      if (a >= W) return D_DATA_OOB;
+      if (needWritten && tm && !written[a]) return D_READ_UNWRITTEN;
+      return rd(a);
+    };
+    auto need = [&](bool def) -> Domain { return (needWritten && tm && !def) ? D_READ_UNWRITTEN : D_OK; };
     auto wr = [&](uint32_t a) -> Domain { return a >= W ? D_DATA_OOB : D_OK; };
     auto tgt = [&](uint32_t t) -> Domain { return (rtlTargets && (t >> 2) >= W) ? D_TARGET_OOB : D_OK; };
     switch (inst >> 4) {
@@ -135,31 +148,33 @@ public:
       case STAM: return wr(o);
       case LDAC: case LDBC: return D_OK;
       case LDAP: return tgt(npc + o);
-      case LDAI: return rd(areg + o);
-      case LDBI: return rd(breg + o);
-      case STAI: return wr(breg + o);
+      case LDAI: { Domain d = need(defA); return d != D_OK ? d : rd(areg + o); }
+      case LDBI: { Domain d = need(defB); return d != D_OK ? d : rd(breg + o); }
+      case STAI: { Domain d = need(defB); return d != D_OK ? d : wr(breg + o); }
       case BR: return tgt(npc + o);
-      case BRZ: return areg == 0 ? tgt(npc + o) : D_OK;
-      case BRN: return (int32_t)areg < 0 ? tgt(npc + o) : D_OK;
+      case BRZ: { Domain d = need(defA); if (d != D_OK) return d; return areg == 0 ? tgt(npc + o) : D_OK; }
+      case BRN: { Domain d = need(defA); if (d != D_OK) return d; return (int32_t)areg < 0 ? tgt(npc + o) : D_OK; }
       case PFIX: case NFIX: return D_OK;
       case OPR:
         switch (o) {
-          case BRB: return tgt(breg);
+          case BRB: { Domain d = need(defB); return d != D_OK ? d : tgt(breg); }
           case ADD: case SUB: return D_OK;
           case SVC: {
+            Domain d = need(defA);
+            if (d != D_OK) return d;
             if (areg > 2) return D_UNDEF_SYSCALL;
-            Domain d = rd(1);
+            d = used(1);
             if (d != D_OK) return d;
             uint32_t sp = mem[1];
-            if (areg == 0) return rd(sp + 2);
+            if (areg == 0) return used(sp + 2);
             if (areg == 1) {
-              d = rd(sp + 2); if (d != D_OK) return d;
-              d = rd(sp + 3); if (d != D_OK) return d;
+              d = used(sp + 2); if (d != D_OK) return d;
+              d = used(sp + 3); if (d != D_OK) return d;
               int32_t s = (int32_t)mem[sp + 3];
               if (io && s >= 256 && io->fileMode[(s >> 8) & 7] == Io::OPEN_R) return D_IO_WRONG_MODE;
               return D_OK;
             }
-            d = rd(sp + 2); if (d != D_OK) return d;
+            d = used(sp + 2); if (d != D_OK) return d;
             d = wr(sp + 1); if (d != D_OK) return d;
             {
               int32_t s = (int32_t)mem[sp + 2];
@@ -173,9 +188,9 @@ public:
     }
   }
 
-  void store(uint32_t a, uint32_t v) {
+  void store(uint32_t a, uint32_t v, bool defined = true) {
     mem[a] = v;
-    if (trackWritten) written[a] = 1;
+    if (trackWritten) written[a] = (taint ? defined : true) ? 1 : 0;
     last.wrote = true; last.waddr = a; last.wdata = v;
     if (a > last.maxAddr) last.maxAddr = a;
   }
@@ -188,15 +203,15 @@ public:
     pc = pc + 1;
     oreg = oreg | (inst & 15);
     switch (inst >> 4) {
-      case LDAM: last.maxAddr = oreg; areg = mem[oreg]; oreg = 0; break;
-      case LDBM: last.maxAddr = oreg; breg = mem[oreg]; oreg = 0; break;
-      case STAM: store(oreg, areg); oreg = 0; break;
-      case LDAC: areg = oreg; oreg = 0; break;
-      case LDBC: breg = oreg; oreg = 0; break;
-      case LDAP: areg = pc + oreg; oreg = 0; break;
-      case LDAI: last.maxAddr = areg + oreg; areg = mem[areg + oreg]; oreg = 0; break;
-      case LDBI: last.maxAddr = breg + oreg; breg = mem[breg + oreg]; oreg = 0; break;
-      case STAI: store(breg + oreg, areg); oreg = 0; break;
+      case LDAM: last.maxAddr = oreg; if (trackWritten) defA = written[oreg]; areg = mem[oreg]; oreg = 0; break;
+      case LDBM: last.maxAddr = oreg; if (trackWritten) defB = written[oreg]; breg = mem[oreg]; oreg = 0; break;
+      case STAM: store(oreg, areg, defA); oreg = 0; break;
+      case LDAC: areg = oreg; defA = true; oreg = 0; break;
+      case LDBC: breg = oreg; defB = true; oreg = 0; break;
+      case LDAP: areg = pc + oreg; defA = true; oreg = 0; break;
+      case LDAI: last.maxAddr = areg + oreg; if (trackWritten) defA = written[areg + oreg]; areg = mem[areg + oreg]; oreg = 0; break;
+      case LDBI: last.maxAddr = breg + oreg; if (trackWritten) defB = written[breg + oreg]; breg = mem[breg + oreg]; oreg = 0; break;
+      case STAI: store(breg + oreg, areg, defA); oreg = 0; break;
       case BR: pc = pc + oreg; oreg = 0; last.taken = true; break;
       case BRZ: if (areg == 0) { pc = pc + oreg; last.taken = true; } oreg = 0; break;
       case BRN: if ((int32_t)areg < 0) { pc = pc + oreg; last.taken = true; } oreg = 0; break;
@@ -205,8 +220,8 @@ public:
       case OPR:
         switch (oreg) {
           case BRB: pc = breg; last.taken = true; break;
-          case ADD: areg = areg + breg; break;
-          case SUB: areg = areg - breg; break;
+          case ADD: areg = areg + breg; defA = defA && defB; break;
+          case SUB: areg = areg - breg; defA = defA && defB; break;
           case SVC: {
             uint32_t sp = mem[1];
             last.syscall = true; last.sysno = areg;
